@@ -10,6 +10,7 @@ import Mahotas.Proofs.C12Kernels
 import Mahotas.Model.C12Kernels2
 import Mahotas.Proofs.C07
 import Mahotas.Proofs.C07Order
+import Mahotas.Proofs.C08Kernels
 namespace Mahotas.C12
 open Mahotas
 
@@ -689,6 +690,272 @@ theorem rank_solo_value (kcs : List KCall) (t : Nat) (md : Mode) (rank : Int) (v
   rfl
 
 
+/-! ## value tie: dilate (`C01.dilateModel`), a scatter kernel -/
+
+section dilate
+variable (calls : List Call) (aA aBc aOut aFd : Nat) (dt : DT) (vA vOut vBc : C08.View) (A : Img Int) (m : Mem)
+
+/-- the memory presents the running result `out` in the result array and still holds the input -/
+def DilInv (M : Mem) (out : Array Int) : Prop :=
+  out.size = shapeSize vA.shape ∧
+  (∀ j, j < shapeSize vA.shape → M ((KLoc.mk aOut (iterAddr vOut j)).toLoc calls) = out.getD j dt.lo) ∧
+  (∀ a, M ((KLoc.mk aA a).toLoc calls) = m ((KLoc.mk aA a).toLoc calls))
+
+/-- the body of the inner loop of `C01.dilateModel` with the `continue` folded in -/
+def dilBody (v : Int) (p : List Int) (out : Array Int) (kh : List Int × Int) : Array Int :=
+  if v = dt.lo then out else C01.dilateScatter dt vA.shape v p out kh
+
+theorem dilBody_fold (v : Int) (p : List Int) (sup : List (List Int × Int)) (out : Array Int) :
+    sup.foldl (dilBody dt vA v p) out =
+      if v = dt.lo then out else sup.foldl (C01.dilateScatter dt vA.shape v p) out := by
+  by_cases hv : v = dt.lo
+  · rw [if_pos hv]
+    induction sup with
+    | nil => rfl
+    | cons kh rest ih => simp only [List.foldl_cons, dilBody, if_pos hv]; simpa [dilBody, hv] using ih
+  · rw [if_neg hv]
+    congr 1
+    funext out kh
+    simp [dilBody, hv]
+
+end dilate
+
+theorem unravelI_toNat (s : List Nat) (i : Nat) : (unravelI s i).map Int.toNat = unravel s i := by
+  simp [unravelI, List.map_map, Function.comp_def]
+
+theorem scatter_eq (vOut : C08.View) (s : List Nat)
+    (hvis : ∀ i, i < shapeSize s → iterAddr vOut i = vOut.addr (unravel s i))
+    (i : Nat) (hi : i < shapeSize s) (q : List Int) (hq : inside s q = true) :
+    scatterAddr vOut i (unravelI s i) q = iterAddr vOut (ravelI s q) := by
+  unfold scatterAddr
+  have h2 : unravel s (ravelI s q) = q.map Int.toNat := by
+    rw [← unravelI_toNat, C01.unravelI_ravelI s q hq]
+  rw [unravelI_toNat, hvis i hi, hvis _ (C01.ravelI_lt s q hq), h2]
+  omega
+
+theorem getD_setIfInBounds (out : Array Int) (idx j : Nat) (x d : Int) (hidx : idx < out.size) :
+    (out.setIfInBounds idx x).getD j d = if j = idx then x else out.getD j d := by
+  by_cases h : j = idx
+  · subst h; simp [Array.getD_eq_getD_getElem?, hidx]
+  · simp [Array.getD_eq_getD_getElem?, h, Ne.symm h]
+
+theorem dilate_step_inv (calls : List Call) (aA aBc aOut aFd : Nat) (dt : DT) (vA vOut vBc : C08.View)
+    (A : Img Int) (m : Mem)
+    (hA1 : aA ≠ aOut)
+    (hpos : ∀ d ∈ vA.shape, 0 < d)
+    (hvis : ∀ i, i < shapeSize vA.shape → iterAddr vOut i = vOut.addr (unravel vA.shape i))
+    (hinj : ∀ k k', k < shapeSize vA.shape → k' < shapeSize vA.shape →
+        iterAddr vOut k = iterAddr vOut k' → k = k')
+    (hA : ∀ i, i < shapeSize vA.shape →
+        m ((KLoc.mk aA (iterAddr vA i)).toLoc calls) = A.getD (unravelI vA.shape i) dt.lo)
+    (i : Nat) (hi : i < shapeSize vA.shape) (jkh : Nat × (List Int × Int))
+    (hlen : jkh.2.1.length = vA.shape.length) (r : RStep)
+    (hr : dilateStepR dt vA vOut vBc i jkh = some r)
+    (M : Mem) (out : Array Int) (hinv : DilInv calls aA aOut dt vA vOut m M out) :
+    DilInv calls aA aOut dt vA vOut m (((mkStep ⟨[aA, aBc], [aOut, aFd]⟩ r).compile calls).exec M)
+      (dilBody dt vA (A.getD (unravelI vA.shape i) dt.lo) (unravelI vA.shape i) out jkh.2) := by
+  obtain ⟨hsz, hout, hin⟩ := hinv
+  simp only [dilateStepR, Option.map_eq_some_iff] at hr
+  obtain ⟨q, hq, rfl⟩ := hr
+  have hqin : inside vA.shape q = true :=
+    C08.fixPos_inside .nearest vA.shape _ q hpos (by
+      rw [C01.addPos_length, hlen, Mahotas.unravelI_length]; simp) hq
+  have hidx : ravelI vA.shape q < shapeSize vA.shape := C01.ravelI_lt _ _ hqin
+  have hsa := scatter_eq vOut vA.shape hvis i hi q hqin
+  -- the step, spelled out
+  have hdst : ((mkStep ⟨[aA, aBc], [aOut, aFd]⟩ (⟨0, scatterAddr vOut i (unravelI vA.shape i) q,
+        [⟨.own 0, scatterAddr vOut i (unravelI vA.shape i) q⟩, ⟨.inp 0, iterAddr vA i⟩,
+          filtSrc dt.isBool 1 vBc jkh.1], dilateVal dt jkh.2.2⟩ : RStep)).compile calls).dst =
+      (KLoc.mk aOut (iterAddr vOut (ravelI vA.shape q))).toLoc calls := by
+    rw [← hsa]; rfl
+  obtain ⟨v, hv⟩ : ∃ v, v = A.getD (unravelI vA.shape i) dt.lo := ⟨_, rfl⟩
+  have hval : ∀ x, (((mkStep ⟨[aA, aBc], [aOut, aFd]⟩ (⟨0, scatterAddr vOut i (unravelI vA.shape i) q,
+        [⟨.own 0, scatterAddr vOut i (unravelI vA.shape i) q⟩, ⟨.inp 0, iterAddr vA i⟩,
+          filtSrc dt.isBool 1 vBc jkh.1], dilateVal dt jkh.2.2⟩ : RStep)).compile calls).exec M) x =
+      if x = (KLoc.mk aOut (iterAddr vOut (ravelI vA.shape q))).toLoc calls then
+        (if v = dt.lo then out.getD (ravelI vA.shape q) dt.lo
+         else if dilateAdd dt v jkh.2.2 > out.getD (ravelI vA.shape q) dt.lo then dilateAdd dt v jkh.2.2
+         else out.getD (ravelI vA.shape q) dt.lo)
+      else M x := by
+    intro x
+    rw [Step.exec, Mem.set_apply, hdst]
+    congr 1
+    simp only [KStep.compile, mkStep, List.map_cons, List.map_nil, dilateVal]
+    have e1 : M ((KLoc.mk ((⟨[aA, aBc], [aOut, aFd]⟩ : Call).arrOf (.own 0))
+        (scatterAddr vOut i (unravelI vA.shape i) q)).toLoc calls) = out.getD (ravelI vA.shape q) dt.lo := by
+      rw [hsa]; exact hout _ hidx
+    have e2 : M ((KLoc.mk ((⟨[aA, aBc], [aOut, aFd]⟩ : Call).arrOf (.inp 0)) (iterAddr vA i)).toLoc calls) = v := by
+      rw [hv, ← hA i hi]; exact hin _
+    rw [e1, e2]
+  rw [← hv]
+  refine ⟨?_, ?_, ?_⟩
+  · unfold dilBody C01.dilateScatter
+    rw [hq]
+    simp only
+    split
+    · exact hsz
+    · split
+      · simpa using hsz
+      · exact hsz
+  · intro j hj
+    rw [hval]
+    have hiff : ((KLoc.mk aOut (iterAddr vOut j)).toLoc calls =
+        (KLoc.mk aOut (iterAddr vOut (ravelI vA.shape q))).toLoc calls) ↔ j = ravelI vA.shape q := by
+      constructor
+      · intro h
+        have := congrArg KLoc.off (KLoc.toLoc_inj calls _ _ h)
+        exact hinj j _ hj hidx this
+      · intro h; rw [h]
+    unfold dilBody C01.dilateScatter
+    rw [hq]
+    simp only
+    by_cases hjq : j = ravelI vA.shape q
+    · rw [if_pos (hiff.2 hjq)]
+      subst hjq
+      by_cases hvl : v = dt.lo
+      · simp [hvl]
+      · simp only [hvl, if_false]
+        by_cases hgt : dilateAdd dt v jkh.2.2 > out.getD (ravelI vA.shape q) dt.lo
+        · rw [if_pos hgt, if_pos hgt, getD_setIfInBounds _ _ _ _ _ (by omega), if_pos rfl]
+        · rw [if_neg hgt, if_neg hgt]
+    · rw [if_neg (fun h => hjq (hiff.1 h)), hout j hj]
+      by_cases hvl : v = dt.lo
+      · simp [hvl]
+      · simp only [hvl, if_false]
+        split
+        · rw [getD_setIfInBounds _ _ _ _ _ (by omega), if_neg hjq]
+        · rfl
+  · intro a
+    rw [hval, if_neg (toLoc_ne_of_arr calls _ _ (by simpa using hA1)), hin]
+
+section dilate2
+variable (calls : List Call) (aA aBc aOut aFd : Nat) (dt : DT) (vA vOut vBc : C08.View) (A : Img Int) (m : Mem)
+  (hA1 : aA ≠ aOut) (hpos : ∀ d ∈ vA.shape, 0 < d)
+  (hvis : ∀ i, i < shapeSize vA.shape → iterAddr vOut i = vOut.addr (unravel vA.shape i))
+  (hinj : ∀ k k', k < shapeSize vA.shape → k' < shapeSize vA.shape →
+      iterAddr vOut k = iterAddr vOut k' → k = k')
+  (hA : ∀ i, i < shapeSize vA.shape →
+      m ((KLoc.mk aA (iterAddr vA i)).toLoc calls) = A.getD (unravelI vA.shape i) dt.lo)
+include hA1 hpos hvis hinj hA
+
+theorem dilate_inner_inv (i : Nat) (hi : i < shapeSize vA.shape) (sup : List (List Int × Int))
+    (hsup : ∀ kh ∈ sup, kh.1.length = vA.shape.length) :
+    ∀ (n : Nat) (M : Mem) (out : Array Int), DilInv calls aA aOut dt vA vOut m M out →
+    DilInv calls aA aOut dt vA vOut m
+      (execAll (((enumFrom n sup).filterMap (dilateStepR dt vA vOut vBc i)).map
+        (fun r => (mkStep ⟨[aA, aBc], [aOut, aFd]⟩ r).compile calls)) M)
+      (sup.foldl (dilBody dt vA (A.getD (unravelI vA.shape i) dt.lo) (unravelI vA.shape i)) out) := by
+  induction sup with
+  | nil => intro n M out h; exact h
+  | cons kh rest ih =>
+    intro n M out h
+    simp only [enumFrom, List.filterMap_cons, List.foldl_cons]
+    cases hr : dilateStepR dt vA vOut vBc i (n, kh) with
+    | none =>
+      simp only
+      have hnone : fixPos .nearest vA.shape (addPos (unravelI vA.shape i) kh.1) = none := by
+        simpa [dilateStepR] using hr
+      have hb : dilBody dt vA (A.getD (unravelI vA.shape i) dt.lo) (unravelI vA.shape i) out kh = out := by
+        unfold dilBody C01.dilateScatter
+        rw [hnone]
+        simp
+      rw [hb]
+      exact ih (fun kh' hkh' => hsup kh' (List.mem_cons_of_mem _ hkh')) (n + 1) M out h
+    | some r =>
+      simp only [List.map_cons, execAll, List.foldl_cons]
+      exact ih (fun kh' hkh' => hsup kh' (List.mem_cons_of_mem _ hkh')) (n + 1) _ _
+        (dilate_step_inv calls aA aBc aOut aFd dt vA vOut vBc A m hA1 hpos hvis hinj hA i hi (n, kh)
+          (hsup kh (List.mem_cons_self ..)) r hr M out h)
+
+theorem dilate_outer_inv (sup : List (List Int × Int))
+    (hsup : ∀ kh ∈ sup, kh.1.length = vA.shape.length) (is : List Nat)
+    (his : ∀ i ∈ is, i < shapeSize vA.shape) :
+    ∀ (M : Mem) (out : Array Int), DilInv calls aA aOut dt vA vOut m M out →
+    DilInv calls aA aOut dt vA vOut m
+      (execAll ((is.flatMap fun i => (enumFrom 0 sup).filterMap (dilateStepR dt vA vOut vBc i)).map
+        (fun r => (mkStep ⟨[aA, aBc], [aOut, aFd]⟩ r).compile calls)) M)
+      (is.foldl (fun out i =>
+        sup.foldl (dilBody dt vA (A.getD (unravelI vA.shape i) dt.lo) (unravelI vA.shape i)) out) out) := by
+  induction is with
+  | nil => intro M out h; exact h
+  | cons i rest ih =>
+    intro M out h
+    simp only [List.flatMap_cons, List.map_append, execAll_append, List.foldl_cons]
+    exact ih (fun j hj => his j (List.mem_cons_of_mem _ hj)) _ _
+      (dilate_inner_inv calls aA aBc aOut aFd dt vA vOut vBc A m hA1 hpos hvis hinj hA i
+        (his i (List.mem_cons_self ..)) sup hsup 0 M out h)
+
+end dilate2
+
+theorem dilate_solo_value (kcs : List KCall) (t : Nat) (dt : DT) (vA vOut vBc : C08.View) (bc : Array Int)
+    (aA aBc aOut aFd : Nat)
+    (hk : kcs[t]? = some ((Kernel2.dilate dt vA vOut vBc bc).call ⟨[aA, aBc], [aOut, aFd]⟩))
+    (hA1 : aA ≠ aOut) (hA2 : aA ≠ aFd)
+    (A : Img Int) (hshape : A.shape = vA.shape) (hpos : ∀ d ∈ vA.shape, 0 < d)
+    (hsup : ∀ kh ∈ C01.support vBc.shape bc dt.isBool, kh.1.length = vA.shape.length) (m : Mem)
+    (hA : ∀ i, i < shapeSize vA.shape →
+        m ((KLoc.mk aA (iterAddr vA i)).toLoc (kcs.map (·.call))) = A.getD (unravelI vA.shape i) dt.lo)
+    (hvis : ∀ i, i < shapeSize vA.shape → iterAddr vOut i = vOut.addr (unravel vA.shape i))
+    (hinj : ∀ k k', k < shapeSize vA.shape → k' < shapeSize vA.shape →
+        iterAddr vOut k = iterAddr vOut k' → k = k')
+    (k : Nat) (hkn : k < shapeSize vA.shape) :
+    solo (compile kcs) t m ((KLoc.mk aOut (iterAddr vOut k)).toLoc (kcs.map (·.call))) =
+      (C01.dilateModel dt A (C01.support vBc.shape bc dt.isBool)).getD k dt.lo := by
+  let c : Call := ⟨[aA, aBc], [aOut, aFd]⟩
+  have hcne : c.outputs ≠ [] := by simp [c]
+  let calls := kcs.map (·.call)
+  let sup := C01.support vBc.shape bc dt.isBool
+  let cs : RStep → Step := fun r => (mkStep c r).compile calls
+  let N := shapeSize vA.shape
+  let G : Nat → Step := fun (i : Nat) => cs ⟨0, iterAddr vOut i, [], fun _ => dt.lo⟩
+  have hprog : compile kcs t = ((filterCtorRaw dt.isBool 1 vBc).map cs ++ (List.range N).map G) ++
+      ((List.range N).flatMap fun i => (enumFrom 0 sup).filterMap (dilateStepR dt vA vOut vBc i)).map cs := by
+    unfold compile
+    rw [hk]
+    simp only [KCall.prog, Kernel2.call, Kernel2.raw, dilateRaw, List.map_append, List.map_map]
+    rfl
+  have haA : aA ∉ c.outputs := by simp [c, hA1, hA2]
+  rw [solo_eq_execAll, hprog, execAll_append]
+  -- after the constructor and `std::fill`
+  have hinit : DilInv calls aA aOut dt vA vOut m
+      (execAll ((filterCtorRaw dt.isBool 1 vBc).map cs ++ (List.range N).map G) m)
+      (Array.replicate N dt.lo) := by
+    refine ⟨by simp [N], ?_, ?_⟩
+    · intro j hj
+      have hd : (G j).dst = (KLoc.mk aOut (iterAddr vOut j)).toLoc calls := rfl
+      rw [← hd, gather_solo _ G N (fun a b ha hb hab => by
+        have := congrArg KLoc.off (KLoc.toLoc_inj calls _ _ hab)
+        exact hinj a b ha hb this) m j hj]
+      simp [G, cs, KStep.compile, mkStep, Array.getD_eq_getD_getElem?, hj, N]
+    · intro a
+      apply execAll_frame
+      intro s hs
+      rcases List.mem_append.1 hs with h | h
+      · obtain ⟨r, _, rfl⟩ := List.mem_map.1 h
+        exact compiled_dst_ne calls c hcne r _ haA
+      · obtain ⟨i, _, rfl⟩ := List.mem_map.1 h
+        exact compiled_dst_ne calls c hcne _ _ haA
+  have hfin := dilate_outer_inv calls aA aBc aOut aFd dt vA vOut vBc A m hA1 hpos hvis hinj hA sup hsup
+    (List.range N) (fun i hi => List.mem_range.1 hi) _ _ hinit
+  rw [hfin.2.1 k hkn]
+  congr 1
+  unfold C01.dilateModel allPos
+  rw [List.foldl_map, hshape]
+  have hsize : A.size = N := by simp [Img.size, hshape, N]
+  rw [hsize]
+  congr 1
+  funext out i
+  rw [dilBody_fold]
+
+
+/-- `iterator_base` visits the logical elements in C order (`C08.incrN_eq`, `C08.le_address`) -/
+theorem iterAddr_eq_addr (v : C08.View) (h : v.strides.length = v.shape.length) (k : Nat)
+    (hk : k < shapeSize v.shape) : iterAddr v k = v.addr (unravel v.shape k) := by
+  unfold iterAddr
+  rw [C08.incrN_eq v h k hk]
+  exact C08.le_address v h k hk
+
+
 end Mahotas.C12
 
 /-! # property theorems (to be placed in `Properties/C12.lean`) -/
@@ -852,6 +1119,39 @@ theorem C12_rank_filter_program_computes_model (kcs : List KCall) (t : Nat) (md 
     solo (compile kcs) t m ((KLoc.mk aOut (iterAddr vOut k)).toLoc (kcs.map (·.call))) = v :=
   rank_solo_value kcs t md rank vA vOut vBc bc aA aBc aOut aFd aNb aTmp hk hA1 hA2 hA3 hA4 h1 h2 h3 f hshape m hA
     hinj k hkn v hv
+
+/-- **C12-T4 (tie: the dilate program computes `C01.dilateModel`).** Let call number `t` of ANY family of calls
+be `dilate` — a SCATTER kernel: after `std::fill(res, min)` every pixel raises the result at its (clamped)
+neighbour positions by read-modify-writes of the RESULT array — with any dtype, any view of the input, any
+structuring element of the image's rank, on arrays `[aA, aBc]` → `[aOut, aFd]`, the input array distinct from the
+owned ones. The result view has the image's shape and one stride per axis (any strides: then its iterator
+visits `addr (unravel i)`, `C08_iterator_visits_C_order`) and does not overlap itself. If the initial memory
+presents the logical image `A` through the iterator of `vA`, then after the SOLO run of the compiled step
+program the result location of pixel number `k` holds exactly `(C01.dilateModel dt A sup)[k]`, the value of
+the model the driver runs (`c01 kind=dilate`) — the `continue` at `*iter == min` and the conditional store
+`if (nval > arr_val)` included (the step stores the old value back where the C++ does not store). The proof
+carries the running result array of the model through all `N · N2` read-modify-writes (`dilate_step_inv`).
+With `C12_concurrent_calls_independent` the same value is there after every complete interleaving with any
+other calls that have disjoint outputs. -/
+theorem C12_dilate_program_computes_model (kcs : List KCall) (t : Nat) (dt : DT) (vA vOut vBc : C08.View)
+    (bc : Array Int) (aA aBc aOut aFd : Nat)
+    (hk : kcs[t]? = some ((Kernel2.dilate dt vA vOut vBc bc).call ⟨[aA, aBc], [aOut, aFd]⟩))
+    (hA1 : aA ≠ aOut) (hA2 : aA ≠ aFd)
+    (A : Img Int) (hshape : A.shape = vA.shape) (hpos : ∀ d ∈ vA.shape, 0 < d)
+    (hsup : ∀ kh ∈ C01.support vBc.shape bc dt.isBool, kh.1.length = vA.shape.length) (m : Mem)
+    (hA : ∀ i, i < shapeSize vA.shape →
+        m ((KLoc.mk aA (iterAddr vA i)).toLoc (kcs.map (·.call))) = A.getD (unravelI vA.shape i) dt.lo)
+    (hOshape : vOut.shape = vA.shape) (hOlen : vOut.strides.length = vOut.shape.length)
+    (hinj : ∀ k k', k < shapeSize vA.shape → k' < shapeSize vA.shape →
+        iterAddr vOut k = iterAddr vOut k' → k = k')
+    (k : Nat) (hkn : k < shapeSize vA.shape) :
+    solo (compile kcs) t m ((KLoc.mk aOut (iterAddr vOut k)).toLoc (kcs.map (·.call))) =
+      (C01.dilateModel dt A (C01.support vBc.shape bc dt.isBool)).getD k dt.lo :=
+  dilate_solo_value kcs t dt vA vOut vBc bc aA aBc aOut aFd hk hA1 hA2 A hshape hpos hsup m hA
+    (fun i hi => by
+      have := iterAddr_eq_addr vOut hOlen i (by rw [hOshape]; exact hi)
+      rw [hOshape] at this
+      exact this) hinj k hkn
 
 /-! ## non-vacuity -/
 
